@@ -6,7 +6,7 @@
    This file holds statements only. *)
 From Coq Require Import List Arith NArith Bool Lia.
 Import ListNotations.
-Require Import MText MRound MkModel MkEval MkEvalP MkGroupsP MkFmtP MkShapeP MkRoundP MkTreeP.
+Require Import MText MRound MkModel MkEval MkEvalP MkGroupsP MkFmtP MkShapeP MkRoundP MkTreeP MkLexP MkLayoutP MkTextP.
 Require Names Py SpecContains SpecModel Order.
 Open Scope N_scope.
 
@@ -94,11 +94,32 @@ Theorem C07_pure e1 e2 m :
 Proof. exact (eval_markers_ext e1 e2 m). Qed.
 Print Assumptions C07_pure.
 
-(* 7. text level, canonical layout: the text str() prints for a canonical structure is read back as that structure
-      (arbitrary whitespace / quote style / dotted names: see C07_layout below or the correspondence stream) *)
-Theorem C07_parse_canonical_text d m : pfm d m -> parse_marker_nl (format_marker m) = Some (peel_top m).
-Proof. exact (format_parses d m). Qed.
-Print Assumptions C07_parse_canonical_text.
+(* 7. text level.  RForm f t: "t is a text of the formula tree f" - arbitrary runs of spaces/tabs wherever the grammar allows
+      whitespace (none needed unless two word-like tokens meet), either quote style (the quote absent from the literal), every
+      spelling of the variables (PEP 345 dotted names, python_implementation), all ten operators ('not in' with any inner
+      whitespace), any nesting of parentheses.  Every such text - optionally surrounded by whitespace, optionally followed by one
+      newline - parses to the flattening of f ... *)
+Theorem C07_parse_precedence f t g0 g3 nl : RForm f t -> is_ws_str g0 = true -> is_ws_str g3 = true -> nl = [] \/ nl = [10] ->
+  parse_marker_nl (g0 ++ t ++ g3 ++ nl) = Some (flat f).
+Proof. exact (layout_formula f t g0 g3 nl). Qed.
+Print Assumptions C07_parse_precedence.
+(* ... and, when f is the tree of its own text ('or' under 'and' only in parentheses) and its literals are PEP 508 strings
+   (no backslash - the literal_eval oracle boundary - and no NUL/CR/LF), Marker() accepts it and evaluate() returns the value
+   of f under every environment: the first exception in text order, else the boolean value with 'and' binding tighter than 'or' *)
+Theorem C07_text_semantics f t g0 g3 nl : RForm f t -> no_bare_or f = true -> lit_class (flat f) = LOk ->
+  is_ws_str g0 = true -> is_ws_str g3 = true -> nl = [] \/ nl = [10] ->
+  exists m, Marker (g0 ++ t ++ g3 ++ nl) = MOk m /\ forall env, eval_markers env m = den (eval_item env) f.
+Proof. exact (text_semantics f t g0 g3 nl). Qed.
+Print Assumptions C07_text_semantics.
+(* the same for structures (lists as the parser builds them, with single-element groups) *)
+Theorem C07_parse_any_layout m t g0 g3 nl : RList m t -> is_ws_str g0 = true -> is_ws_str g3 = true -> nl = [] \/ nl = [10] ->
+  parse_marker_nl (g0 ++ t ++ g3 ++ nl) = Some m.
+Proof. exact (layout_parse m t g0 g3 nl). Qed.
+Print Assumptions C07_parse_any_layout.
+(* _normalize_extra_values (done once at construction) does not change the value: evaluation normalises again *)
+Theorem C07_normalisation_is_neutral env m : eval_markers env (norm_l m) = eval_markers env m.
+Proof. exact (eval_norm_l env m). Qed.
+Print Assumptions C07_normalisation_is_neutral.
 
 (* non-vacuity: the text  os.name=='a' or os_name == 'b' and (extra == 'C_d')  under os_name = "b", extra = "c.D", python_full_version = "3.9+" *)
 Definition ex_f : form :=
@@ -111,3 +132,23 @@ Example C07_nonvacuous :
     /\ evaluate (flat ex_f) [] (Some [([111;115;95;110;97;109;101], Some [98]); ([101;120;116;114;97], Some [99;46;68]); (w_pfv, Some [51;46;57;43])]) = EBool true
     /\ evaluate (flat ex_f) [] (Some [([111;115;95;110;97;109;101], Some [98]); ([101;120;116;114;97], None); (w_pfv, Some [51;46;57])]) = EBool false.
 Proof. vm_compute. repeat split. Qed.
+
+(* non-vacuity of the layout relation: the text   os.name=='a' or"b"in<TAB>os_name   is a text of  os_name == "a" or "b" in os_name *)
+Definition ex_g : form :=
+  FOr (FAtom (SVar [111;115;95;110;97;109;101]) [61;61] (SVal [97])) (FAtom (SVal [98]) w_in (SVar [111;115;95;110;97;109;101])).
+Definition ex_t : str := ([111;115;46;110;97;109;101] ++ [] ++ [61;61] ++ [] ++ (39 :: [97] ++ [39])) ++ [32] ++ w_or ++ [] ++
+                         ((34 :: [98] ++ [34]) ++ [] ++ w_in ++ [9] ++ [111;115;95;110;97;109;101]).
+Ltac solve_sep := intros H1 H2; first [discriminate H1 | discriminate H2 | vm_compute in H1; discriminate H1 | vm_compute in H2; discriminate H2].
+Example C07_layout_nonvacuous : RForm ex_g ex_t /\ ex_t = [111;115;46;110;97;109;101;61;61;39;97;39;32;111;114;34;98;34;105;110;9;111;115;95;110;97;109;101].
+Proof.
+  split; [|reflexivity]. unfold ex_g, ex_t. apply RFOr; try reflexivity; try solve_sep.
+  - apply RFAtom. apply (RItem (SVar (norm_var [111;115;46;110;97;109;101])) [111;115;46;110;97;109;101] [61;61] [61;61] (SVal [97]) (39 :: [97] ++ [39]) [] []); try reflexivity; try solve_sep.
+    + apply RVar. vm_compute. tauto.
+    + apply RSym. vm_compute. tauto.
+    + apply RVal; [now right | reflexivity].
+  - apply RFAtom. apply (RItem (SVal [98]) (34 :: [98] ++ [34]) w_in w_in (SVar (norm_var [111;115;95;110;97;109;101])) [111;115;95;110;97;109;101] [] [9]); try reflexivity; try solve_sep.
+    + apply RVal; [now left | reflexivity].
+    + apply RIn.
+    + apply RVar. vm_compute. tauto.
+    + intros _ _. discriminate.
+Qed.
